@@ -48,6 +48,12 @@ A1 = {  # single-thread exhaustive alphabet
     'call_ret': ['call', OBS], 'call_raise': ['call', seq(OBS, ['raise'])],
     'gen_step': seq(['obj', 'gnew', 0, 1], ['obj', 'gnext', 0]), 'gen_drop': ['obj', 'gdrop', 0],
 }
+A3 = {  # run()/runctx()/runcall() entry points, single thread
+    'en': P('en'), 'dis': P('dis'),
+    'run_str': ['run', 'run', 'str', OBS], 'runctx_code_raise': ['run', 'runctx', 'code', seq(OBS, ['raise'])],
+    'runctx_bad': ['run', 'runctx', 'bad', OBS], 'run_bad': ['run', 'run', 'bad', OBS],
+    'runctx_empty': ['run', 'runctx', 'empty', OBS], 'runcall_raise': ['run', 'runcall', 'call', seq(OBS, ['raise'])],
+}
 A2 = {'en': P('en'), 'dis': P('dis'), 'call_ret': ['call', OBS]}   # per thread, two-thread exhaustive
 
 OBJ_COQ = {'gnext': 'GNext', 'gclose': 'GClose', 'gthrow': 'GThrow', 'gdrop': 'GDrop',
@@ -67,6 +73,12 @@ def coq_cop(c):
         return 'CRaise'
     if k == 'seq':
         return '(CSeq %s %s)' % (coq_cop(c[1]), coq_cop(c[2]))
+    if k == 'run':
+        if c[1] != 'runcall' and c[2] == 'empty':
+            return 'CRunEmpty'
+        if c[1] != 'runcall' and c[2] == 'bad':
+            return 'CRunBad'
+        return '(CRun %s)' % coq_cop(c[3])
     if k in ('call', 'with', 'catch'):
         return '(%s %s)' % ({'call': 'CCall', 'with': 'CWith', 'catch': 'CCatch'}[k], coq_cop(c[1]))
     if k == 'obj':
@@ -125,6 +137,14 @@ def expand(t, c, sl):
             return ea, True
         eb, rb = expand(t, c[2], sl)
         return ea + eb, rb
+    if k == 'run':
+        E, D = [('p', t, 'en')], [('p', t, 'dis')]
+        if c[1] != 'runcall' and c[2] == 'empty':
+            return E + D, False
+        if c[1] != 'runcall' and c[2] == 'bad':
+            return E + D, True
+        eb, rb = expand(t, c[3], sl)
+        return E + eb + D, rb
     if k in ('call', 'with'):
         eb, rb = expand(t, c[1], sl)
         return [('p', t, 'en')] + eb + [('p', t, 'dis')], rb
@@ -253,6 +273,12 @@ def exhaustive1(kind, L):
         yield dict(kind=kind, n=1, hist=[[0, A1[x]] for x in combo], tag='ex1', names=list(combo))
 
 
+def exhaustive3(kind, L):
+    names = list(A3)
+    for combo in itertools.product(names, repeat=L):
+        yield dict(kind=kind, n=1, hist=[[0, A3[x]] for x in combo], tag='ex3', names=list(combo))
+
+
 def exhaustive2(kind, L):
     letters = [(t, x) for t in (0, 1) for x in A2]
     for combo in itertools.product(letters, repeat=L):
@@ -273,6 +299,9 @@ def rand_body(rnd, depth, t, st):
 
 def rand_op(rnd, depth, t, st, inner=False):
     r = rnd.random()
+    if depth > 0 and r < 0.07:
+        via = rnd.choice(['run', 'runctx', 'runcall'])
+        return ['run', via, rnd.choice(['str', 'code', 'empty', 'bad']) if via != 'runcall' else 'call', rand_body(rnd, depth, t, st)]
     if depth > 0 and r < 0.30:
         return [rnd.choice(['call', 'call', 'with']), rand_body(rnd, depth, t, st)]
     if depth > 0 and r < 0.36:
@@ -321,6 +350,7 @@ def gen_cases(tier, rnd):
         l1, l1c, l2, nr = 6, 5, 6, 30000
     cases += list(exhaustive1('LP', l1)) + list(exhaustive1('CP', l1c))
     cases += list(exhaustive2('LP', l2)) + list(exhaustive2('CP', min(l2, 5)))
+    cases += list(exhaustive3('LP', 3 if tier == 'quick' else 5)) + list(exhaustive3('CP', 3 if tier == 'quick' else 4))
     cases += [rand_case(rnd) for _ in range(nr)]
     cases += [foreign_case(rnd) for _ in range(300 if tier == 'quick' else 5000)]
     scope = dict(single_thread_LP=l1, single_thread_CP=l1c, two_threads_LP=l2, two_threads_CP=min(l2, 5), random=nr)
@@ -360,7 +390,7 @@ def features(case):
             depth[e[1]] = d
             maxd = max(maxd, d)
     txt = json.dumps(case['hist'])
-    return dict(maxdepth=maxd, surplus=surplus, decorated='"call"' in txt or '"obj"' in txt or '"with"' in txt,
+    return dict(maxdepth=maxd, surplus=surplus, run_entry='"run"' in txt, run_noncompiling='"bad"' in txt, decorated='"call"' in txt or '"run"' in txt or '"obj"' in txt or '"with"' in txt,
                 raises='"raise"' in txt, threads=len({t for t, _ in case['hist']}),
                 gen='"gnext"' in txt, coro='"costart"' in txt, agen='"agstart"' in txt,
                 balanced_end=all(v == 0 for v in depth.values()))
@@ -381,7 +411,7 @@ def run(tier, seed):
 
     def search(budget):
         r2 = core.rng(seed + 1, PROP)
-        c2 = list(exhaustive1('LP', 4)) + list(exhaustive1('CP', 3)) + list(exhaustive2('LP', 4)) \
+        c2 = list(exhaustive3('LP', 3)) + list(exhaustive3('CP', 3)) + list(exhaustive1('LP', 4)) + list(exhaustive1('CP', 3)) + list(exhaustive2('LP', 4)) \
             + [rand_case(r2) for _ in range(6000)] + [foreign_case(r2) for _ in range(1500)]
         o2, e2, _ = run_cases(impl, c2)
         for c, o, e in zip(c2, o2, e2):
@@ -462,14 +492,16 @@ def run(tier, seed):
              'generator operation, or reaches nesting depth >= 2, or contains a surplus disable; distinct by (class, threads, history)',
         exhaustive=True,
         exhaustive_scope='all histories of exactly L top-level operations (observed after every operation, so every shorter '
-                         'history is covered): single thread over {%s} with L=%d (LineProfiler) / %d (ContextualProfile); two '
+                         'history is covered): single thread over {%s} with L=%d (LineProfiler) / %d (ContextualProfile); run()/runctx()/runcall() '
+                         'entry points over {%s} with L=3 (quick) / 5, 4 (thorough); two '
                          'threads over {%s} x {thread 0, thread 1} with L=%d / %d' % (
-                             ', '.join(A1), scope['single_thread_LP'], scope['single_thread_CP'], ', '.join(A2),
+                             ', '.join(A1), scope['single_thread_LP'], scope['single_thread_CP'], ', '.join(A3), ', '.join(A2),
                              scope['two_threads_LP'], scope['two_threads_CP']),
         random_cases=scope['random'], case_kinds=kinds, history_length_histogram=hist_len,
         observations=sum(len(o) for o in outs) // 3,
         hypothesis_counts=dict(
-            decorated_call_present=sum(f['decorated'] for f in feats), raising_body=sum(f['raises'] for f in feats),
+            decorated_call_present=sum(f['decorated'] for f in feats), run_runctx_runcall=sum(f['run_entry'] for f in feats),
+            statement_that_does_not_compile=sum(f['run_noncompiling'] for f in feats), raising_body=sum(f['raises'] for f in feats),
             surplus_disable=sum(f['surplus'] for f in feats), nesting_depth_ge_2=sum(f['maxdepth'] >= 2 for f in feats),
             nesting_depth_ge_3=sum(f['maxdepth'] >= 3 for f in feats),
             more_than_one_thread_active=sum(f['threads'] > 1 for f in feats),
